@@ -26,6 +26,13 @@ var c07kmComp = map[byte]byte{'a': 't', 'c': 'g', 'g': 'c', 't': 'a', 'r': 'y', 
 
 func c07kmCheck(r *verifkit.Result, c c07kmCase) {
 	r.Eval(1)
+	r.Count("iupac_symbols", 1) // symbols submitted (counted whatever the tables answer)
+	// a panic / log.Fatal of the sequence complement is an answer of the tree under test, not the end of the run
+	defer func() {
+		if e := recover(); e != nil {
+			r.Violate("tables/obiseq-ReverseComplement/panic", fmt.Sprintf("BioSequence.ReverseComplement of %q panics: %v", c.Sym, e), c)
+		}
+	}()
 	x := c.Sym[0]
 	got, ok := revcompnuc[x]
 	if !ok {
@@ -42,11 +49,11 @@ func c07kmCheck(r *verifkit.Result, c c07kmCase) {
 	if back := revcompnuc[got]; back != x {
 		r.Violate("tables/obikmer-revcompnuc-not-involutive", fmt.Sprintf("revcompnuc[revcompnuc[%q]]=%q", x, back), c)
 	}
-	r.Count("iupac_symbols", 1)
 }
 
 func TestVerifC07Kmer(t *testing.T) {
 	log.SetOutput(io.Discard)
+	log.StandardLogger().ExitFunc = func(code int) { panic(fmt.Sprintf("log.Fatal (exit status %d)", code)) }
 	r := verifkit.New("C07")
 	defer r.Write()
 	if rc := r.ReplayCase(); rc != nil {
